@@ -66,6 +66,13 @@ func paramFor(att *expr.AttributeExpr, name, in string, required bool, rand *exp
 		Schema:          newSchemafier(rand).schemafy(att),
 		Extensions:      openapi.ExtensionsFromExpr(att.Meta),
 	}
+	if in == "query" && expr.IsMap(att.Type) {
+		// Maps are encoded in query strings using the name[key]=value
+		// syntax, i.e. the "deepObject" style.
+		explode := true
+		param.Style = "deepObject"
+		param.Explode = &explode
+	}
 	initExamples(param, att, rand)
 	return param
 }
